@@ -63,6 +63,8 @@ structure TermCfg where
 inductive MatErr | keyError (col : Str)
   deriving Repr, DecidableEq
 
+deriving instance DecidableEq for Except
+
 /-- transformation of one referenced value inside `_materialize_template` -/
 def transformValue (cfg : TermCfg) (isTemplate : Bool) (tt : Option TermType) (datatype : Str) (v : Str) : Str :=
   let v := match cfg.nonPrintable with | some np => v.filter (fun c => !np c) | none => v
